@@ -127,7 +127,7 @@ def run(ctx):
     # ---- 2. T -----------------------------------------------------------------------------------------------------
     t_ok = False
     if info is not None:
-        t_ok = ctx.lean_check(['Cherab.Props.C19'], 'Cherab/Audit/C19.lean')
+        t_ok = ctx.lean_check(['Cherab.Props.C19', 'Cherab.Props.C19Int'], 'Cherab/Audit/C19.lean')
         ctx.log('T: %d/%d obligations discharged' % (sum(1 for o in ctx.obligations if o[1]), len(ctx.obligations)))
 
     # ---- 3. the implementation ------------------------------------------------------------------------------------
@@ -285,6 +285,10 @@ def k_strings(ctx, drv):
     lines += ['enc %s' % s for s in strs if ' ' not in s and s]
     want = [str(code(s.lower())) for s in strs] + [str(code(str(n))) for n in ints] + [str(code(a + b)) for a, b in pairs]
     want += [str(code(s)) for s in strs if ' ' not in s and s]
+    # round 6: the model's `lower` applied to an already lower-cased string (theorem `lower_idem` / `lookup_lower_normal_form`)
+    # and to numerals (`lower_strInt`) against the real `str.lower`
+    lines += ['lower %d' % code(s.lower()) for s in strs] + ['lower %d' % code(str(n)) for n in ints]
+    want += [str(code(s.lower().lower())) for s in strs] + [str(code(str(n).lower())) for n in ints]
 
     def _done(outs):
         bad = [(l, o, w) for l, o, w in zip(lines, outs, want) if o != w]
